@@ -267,6 +267,16 @@ for _cid, _m in {
     "C14": {"dropped_in_mid_write_cases": 40},
 }.items():
     EXTRA_MIN.setdefault(_cid, {}).update(_m)
+# round 10
+for _cid, _m in {
+    "C03": {"shortest_packet_cases": 40},
+    "C05": {"pruning_vs_waiting_operation_cases": 20},
+    "C06": {"length_step_publishes": 18},
+    "C07": {"qos2_identifier_order_cases": 8},
+    "C12": {"oversized_requests_with_an_established_subscription": 60},
+    "C17": {"cancelled_publish_cases": 40},
+}.items():
+    EXTRA_MIN.setdefault(_cid, {}).update(_m)
 # round 9
 for _cid, _m in {
     "C02": {"publishes_with_non_utf8_payload": 200},
